@@ -708,20 +708,36 @@ func (ctx Ctx) copyExpr(n ast.Node, dst ast.Expr, src ast.Expr) coq.Expr {
 		ctx.expr(dst), ctx.expr(src))
 }
 
+// isBuiltin reports whether e is the identifier name and denotes the predeclared
+// object of that name, rather than a declaration of the package that shadows it
+// (a function called len is translated as a call of that function).
+func (ctx Ctx) isBuiltin(e ast.Expr, name string) bool {
+	ident, ok := e.(*ast.Ident)
+	if !ok || ident.Name != name {
+		return false
+	}
+	obj, ok := ctx.info.Uses[ident]
+	return ok && obj.Parent() == types.Universe
+}
+
 func (ctx Ctx) callExpr(s *ast.CallExpr) coq.Expr {
-	if isIdent(s.Fun, "make") {
+	if ctx.isBuiltin(s.Fun, "make") {
 		return ctx.makeExpr(s.Args)
 	}
-	if isIdent(s.Fun, "new") {
+	if ctx.isBuiltin(s.Fun, "new") {
 		return ctx.newExpr(s.Args[0])
 	}
-	if isIdent(s.Fun, "len") {
+	if ctx.isBuiltin(s.Fun, "len") {
 		return ctx.lenExpr(s)
 	}
-	if isIdent(s.Fun, "cap") {
+	if ctx.isBuiltin(s.Fun, "cap") {
 		return ctx.capExpr(s)
 	}
-	if isIdent(s.Fun, "append") {
+	if ctx.isBuiltin(s.Fun, "append") {
+		if len(s.Args) != 2 {
+			ctx.unsupported(s, "append with %d arguments", len(s.Args))
+			return nil
+		}
 		elemTy := sliceElem(ctx.typeOf(s.Args[0]).Underlying())
 		if s.Ellipsis == token.NoPos {
 			return coq.NewCallExpr(coq.GallinaIdent("SliceAppend"),
@@ -735,25 +751,25 @@ func (ctx Ctx) callExpr(s *ast.CallExpr) coq.Expr {
 			ctx.expr(s.Args[0]),
 			ctx.expr(s.Args[1]))
 	}
-	if isIdent(s.Fun, "copy") {
+	if ctx.isBuiltin(s.Fun, "copy") {
 		return ctx.copyExpr(s, s.Args[0], s.Args[1])
 	}
-	if isIdent(s.Fun, "delete") {
+	if ctx.isBuiltin(s.Fun, "delete") {
 		if _, ok := ctx.typeOf(s.Args[0]).(*types.Map); !ok {
 			ctx.unsupported(s, "delete on non-map")
 		}
 		return coq.NewCallExpr(coq.GallinaIdent("MapDelete"), ctx.expr(s.Args[0]), ctx.expr(s.Args[1]))
 	}
-	if isIdent(s.Fun, "uint64") {
+	if ctx.isBuiltin(s.Fun, "uint64") {
 		return ctx.integerConversion(s, s.Args[0], 64)
 	}
-	if isIdent(s.Fun, "uint32") {
+	if ctx.isBuiltin(s.Fun, "uint32") {
 		return ctx.integerConversion(s, s.Args[0], 32)
 	}
-	if isIdent(s.Fun, "uint8") {
+	if ctx.isBuiltin(s.Fun, "uint8") {
 		return ctx.integerConversion(s, s.Args[0], 8)
 	}
-	if isIdent(s.Fun, "panic") {
+	if ctx.isBuiltin(s.Fun, "panic") {
 		msg := "oops"
 		if e, ok := s.Args[0].(*ast.BasicLit); ok {
 			if e.Kind == token.STRING {
